@@ -21,6 +21,7 @@ def back_xform(templates, typevars=None, refparams=('fsm',), throwers=(), member
     def xf(tk, F):
         tk = X.rule_pp(tk, F, pp_defined)
         tk = X.rule_ns(tk, F)
+        tk = X.rule_parens(tk, F)
         if pre_rewrites: tk = X.rule_rewrites(tk, F, pre_rewrites)
         tk = X.rule_drop(tk, F, drop)
         tk = X.rule_constexpr_if(tk, F)
